@@ -436,12 +436,25 @@ def extract_docstring_linenum(node: Str) -> int:
         lineno -= doc.count('\n')
 
     # Leading blank lines are stripped by cleandoc(), so we must
-    # return the line number of the first non-blank line.
-    for ch in doc:
-        if ch == '\n':
-            lineno += 1
-        elif not ch.isspace():
+    # return the line number of the first line it keeps. 
+    # A whitespace-only line that is indented more than the text is not blank 
+    # once the common indentation has been removed: cleandoc() keeps it.
+    lines = doc.expandtabs().split('\n')
+    indents = [len(line) - len(line.lstrip()) for line in lines[1:] if line.lstrip()]
+    margin = min(indents) if indents else None
+    for i, line in enumerate(lines):
+        kept = line.lstrip() if i == 0 else (line[margin:] if margin is not None else line)
+        if kept:
             break
+        lineno += 1
+    else:
+        # only blank lines
+        lineno = node.lineno - (doc.count('\n') if _string_lineno_is_end else 0)
+        for ch in doc:
+            if ch == '\n':
+                lineno += 1
+            elif not ch.isspace():
+                break
     
     return lineno
 
